@@ -161,10 +161,15 @@ def units(tier, seed):
     out.append(("key-toy", {"curves": ["t23a", "t13"] if tier == "quick" else ["t23a", "t13", "t29", "t61", "t127"]}))
     out.append(("key-named", {"per_curve": 6 if tier == "quick" else 60}))
     out.append(("interleaved", {"stride": 1}))
+    out.append(("faults", {"jobset": 'sig', "arg": None, "examples": 40 if tier == "quick" else 1500, "triples": 400 if tier == "quick" else 20000}))
     return out
 
 
 def run_unit(ctx, name, **kw):
+    if name == "faults":
+        from . import faults
+        faults.run_set(ctx, **kw)
+        return
     if name == "small-orders":
         for n in range(kw["lo"], kw["hi"] + 1):
             if n % kw["nshards"] != kw["shard"]:
@@ -259,6 +264,10 @@ def run_unit(ctx, name, **kw):
 
 
 def replay(ctx, case):
+    if case.get("kind") == "fault-history":
+        from . import faults
+        faults.replay(ctx, case)
+        return
     if case.get("kind") == "interleaved":
         interleaved(ctx, 1)
     elif case.get("kind") == "key":
